@@ -14,7 +14,8 @@ from .values import BP, REF, Gen, tree_from_json, tree_to_json, canon
 
 def plan_items(tier: str, seed: int, *, n_gen_quick: int, n_gen_thorough: int, n_quick: int, n_thorough: int,
                with_inputs: bool = True) -> List[dict]:
-    n_gen = n_gen_quick if tier == "quick" else n_gen_thorough
+    # thorough: bounded so that a property's thorough tier stays around 10-15 minutes on 16 cores
+    n_gen = n_gen_quick if tier == "quick" else min(n_gen_thorough, 96)
     items = corpus.value_items(tier, seed, n_gen, with_inputs)
     n = n_quick if tier == "quick" else n_thorough
     shards = []
@@ -25,12 +26,14 @@ def plan_items(tier: str, seed: int, *, n_gen_quick: int, n_gen_thorough: int, n
             for r in range(reps):
                 for pi in range(parts):
                     shards.append({"item": it, "seed": seed * 7919 + i * 31 + r, "n": n * 3 // parts * 4,
-                                   "matrix": "full" if r == 0 else "none", "part": [pi, parts]})
+                                   "matrix": "full" if r == 0 else "none", "part": [pi, parts],
+                                   "time_cap": 40 if tier == "quick" else 100})
         elif it["kind"] == "gen":
             shards.append({"item": it, "seed": seed * 7919 + i, "n": n, "matrix": "sample",
-                           "time_cap": 40 if tier == "quick" else 900})
+                           "time_cap": 40 if tier == "quick" else 100})
         else:
-            shards.append({"item": it, "seed": seed * 7919 + i, "n": max(20, n // 4), "matrix": "sample"})
+            shards.append({"item": it, "seed": seed * 7919 + i, "n": max(20, n // 4), "matrix": "sample",
+                           "time_cap": 40 if tier == "quick" else 100})
     return shards
 
 
